@@ -1,6 +1,6 @@
 (* C15: lemmas about the handshake models (all inputs, no bounds). *)
 From Verif Require Import Lib.Bytes Json.Ast Fed.HandshakeCommon Fed.HandshakeJoin
-     Fed.HandshakeInvite Fed.HandshakePerform Fed.HandshakeSpec.
+     Fed.HandshakeInvite Fed.HandshakePerform Fed.HandshakePerformInvite Fed.HandshakeSpec.
 Open Scope N_scope.
 
 Lemma negb_false_true b : negb b = false -> b = true.
@@ -719,3 +719,75 @@ Proof.
     destruct (jget (bs "state_key") ev) as [[| | |sk| |]|]; try discriminate.
     inversion Hk; subst. reflexivity.
 Qed.
+
+(* ---------------------------------------------------------------------------------- *)
+(* perform_invite                                                                       *)
+(* ---------------------------------------------------------------------------------- *)
+
+Definition pi_core_spec (i : pi_input) : bool :=
+  match pi_latest_q i with Some le => pl_room_exists le | None => false end &&
+  pi_build_ok i && pi_provider_ok i && pi_allowed_ok i && (pi_target_local i || pi_send_ok i).
+
+Lemma pi_core_ok i state log :
+  pir_out (pi_core i state log) = OOk ->
+  pi_core_spec i = true /\
+  (pi_target_local i = true ->
+   exists le v, pi_latest_q i = Some le /\
+     pir_event (pi_core i state log) =
+       Some (PIBuilt (pi_invitee i) (pl_depth le) (truncate 10 (pl_refs le)) (truncate 20 (pl_prev le))
+                     [pi_inviter_domain i; pi_invitee_domain i] v)) /\
+  (pi_target_local i = false -> pir_event (pi_core i state log) = Some PIRemote).
+Proof.
+  unfold pi_core, pi_core_spec.
+  destruct (pi_needed i) as [[|t ts]|]; simpl; try discriminate.
+  destruct (pi_latest_q i) as [le|]; simpl; [|discriminate].
+  destruct (pl_room_exists le); simpl; [|discriminate].
+  destruct (pl_state_ok le); simpl; [|discriminate].
+  destruct (pl_refs_ok le); simpl; [|discriminate].
+  destruct (pi_build_ok i); simpl; [|discriminate].
+  destruct (pi_provider_ok i); simpl; [|discriminate].
+  destruct (pi_allowed_ok i); simpl; [|discriminate].
+  destruct (pi_target_local i); simpl.
+  - intros _. split; [reflexivity|]. split; [|discriminate].
+    intros _. eexists. eexists. split; reflexivity.
+  - destruct (pi_send_ok i); simpl; [|discriminate].
+    intros _. split; [reflexivity|]. split; [discriminate|reflexivity].
+Qed.
+
+Lemma perform_invite_ok i :
+  pir_out (perform_invite i) = OOk ->
+  perform_invite_admissible i = true /\
+  (pi_target_local i = true ->
+   exists le v, pi_latest_q i = Some le /\
+     pir_event (perform_invite i) =
+       Some (PIBuilt (pi_invitee i) (pl_depth le) (truncate 10 (pl_refs le)) (truncate 20 (pl_prev le))
+                     [pi_inviter_domain i; pi_invitee_domain i] v)) /\
+  (pi_target_local i = false -> pir_event (perform_invite i) = Some PIRemote).
+Proof.
+  assert (W : forall state log, pir_out (pi_with_state i state log) = OOk ->
+    perform_invite_admissible i = true /\
+    (pi_target_local i = true ->
+     exists le v, pi_latest_q i = Some le /\
+       pir_event (pi_with_state i state log) =
+         Some (PIBuilt (pi_invitee i) (pl_depth le) (truncate 10 (pl_refs le)) (truncate 20 (pl_prev le))
+                       [pi_inviter_domain i; pi_invitee_domain i] v)) /\
+    (pi_target_local i = false -> pir_event (pi_with_state i state log) = Some PIRemote)).
+  { intros state log. unfold pi_with_state, perform_invite_admissible.
+    destruct (pi_set_unsigned_ok i); simpl; [|discriminate].
+    destruct (version_known (pi_version i)); simpl; [|discriminate].
+    destruct (pi_sender_id i) as [| |sid]; simpl; [discriminate| |].
+    - intro H. destruct (pi_core_ok i _ _ H) as [A B]. split; [|exact B].
+      unfold pi_core_spec in A. exact A.
+    - destruct (pi_membership i) as [cur|]; simpl; [|discriminate].
+      destruct (bytes_eqb cur s_join); simpl; [discriminate|].
+      intro H. destruct (pi_core_ok i _ _ H) as [A B]. split; [|exact B].
+      unfold pi_core_spec in A. exact A. }
+  unfold perform_invite.
+  destruct (bytes_eqb (pi_version i) v_pseudo_ids); simpl; [discriminate|].
+  destruct (pi_given_state i) as [|x st].
+  - destruct (pi_generated_state i) as [| |st]; simpl; [discriminate| |]; apply W.
+  - apply W.
+Qed.
+
+Lemma firstn_le {A} n (l : list A) : (length (firstn n l) <= n)%nat.
+Proof. apply firstn_le_length. Qed.
